@@ -540,6 +540,15 @@ def summarizer_tables(F, rep, rule="C05.6"):
                     continue
                 t = h.truth("Ge", {"min": -1}, n)
                 if t is None:
+                    # the path leaves (n >= min) open: a threshold consistent with everything the code tested on this path for which the
+                    # reported validity is wrong is an exact counterexample
+                    if isinstance(valid, Int) and valid.is_conc():
+                        env = h.find_model(["min"], lambda e, n=n, v=bool(valid.val): (n >= e["min"]) != v)
+                        if env is not None:
+                            problems.append("%d observations (labels %s), threshold min_kmer_obs = %d: the summarizer reports valid=%s on the path taken for this "
+                                            "threshold (tests made: %s); specified: valid exactly when the number of observations >= the threshold"
+                                            % (n, list(labels), env["min"], bool(valid.val), preds))
+                            continue
                     inc.append("acceptance not decided by a comparison of the count with min_kmer_obs: %s" % preds)
                     continue
                 if not (isinstance(valid, Int) and valid.is_conc() and bool(valid.val) == t):
